@@ -91,17 +91,28 @@ func c10CheckCiphertext(key, p, ct []byte, chunks [][]byte) error {
 }
 
 func c10Oracle(in c10In) probe.Outcome {
-	key := in.Key
+	key := probe.Exact(in.Key)
 	want := ref.Encrs[in.Encr].KeyLen
-	long, err := c10New(in.Encr, key)
+	// the key as a caller holds it who cut it out of a longer stretch of keying material (prf+ output): more key octets follow
+	// within the capacity of the slice
+	keyInKeymat := probe.SpareWith(in.Key, bytes.Repeat([]byte{0x42, 0x17}, 40))
+	long, err := c10New(in.Encr, keyInKeymat)
 	if probe.IsPanic(err) {
 		return probe.Fail("NewCrypto panics: %v", err)
 	}
 	if len(key) != want {
 		if err == nil {
+			return probe.Fail("NewCrypto accepted a %d-octet key (the first octets of a longer stretch of keying material) for %s", len(key), ref.Encrs[in.Encr].Name)
+		}
+		if _, err := c10New(in.Encr, key); err == nil {
 			return probe.Fail("NewCrypto accepted a %d-octet key for %s", len(key), ref.Encrs[in.Encr].Name)
+		} else if probe.IsPanic(err) {
+			return probe.Fail("NewCrypto panics: %v", err)
 		}
 		return probe.OK(true, "wrong-key-size")
+	}
+	if !bytes.Equal(keyInKeymat[:cap(keyInKeymat)][len(in.Key):], bytes.Repeat([]byte{0x42, 0x17}, 40)) {
+		return probe.Fail("NewCrypto wrote to the keying material behind the key it was given")
 	}
 	if err != nil {
 		return probe.Fail("NewCrypto refused a key of the right size: %v", err)
@@ -332,6 +343,7 @@ var c10Table = probe.Define("C10", "table", func(t *rapid.T) c10In { panic("enum
 
 func TestC10(t *testing.T) {
 	c := probe.NewCtx(t, "C10")
+	idleStart(c, "cipher")
 	if c.Shard == 1 || !c.Thorough() {
 		endurance(c, "C10", "encrypt", 70000)
 	}
@@ -400,4 +412,5 @@ func TestC10(t *testing.T) {
 		}
 	}
 	c10Seq.Run(c, t, c.N(2500, 25000))
+	idleFinish(c, "C10", "cipher")
 }
